@@ -8,7 +8,9 @@
  *        whole path: jls_wr_open, jls_wr_source_def(1), jls_wr_signal_def(signal 1, FSR, 1000 Hz),
  *        jls_wr_close, jls_rd_open, jls_rd_signal(1), jls_rd_close on a temporary file.
  * result line (decimal), same for both forms:
- *   <rc> <spd> <sdf> <eps> <sumdf> <anno> <utc>        rc != 0: definition rejected, fields as given
+ *   <rc> <spd> <sdf> <eps> <sumdf> <anno> <utc>        rc != 0: definition rejected; the fields are what the struct
+ *        holds then: as given if validation rejected, after defaults if jls_core_signal_def_align rejected
+ *        (F form: always as given - jls_wr_signal_def works on a copy)
  *   FAULT SIGFPE | FAULT TIMEOUT | FAULT UBSAN_DIVZERO | FAULT ASAN | FAULT SIG<n> | FAULT EXIT<n>
  * Every case runs in a forked child (one child runs consecutive cases until one of them kills it;
  * the parent then prints the FAULT line for that case and forks a new child for the rest), with
